@@ -48,11 +48,11 @@ def alloc_cases(rng, n):
 
 def cases(rng, tier):
     out = []
-    for _ in range(900 if tier == 'thorough' else 130):
+    for _ in range(900 if tier == 'thorough' else 100):
         out.append(S.scenario_case(S.gen_concurrent(rng), 'concurrent'))
     for _ in range(3 if tier == 'thorough' else 1):
         out.append(S.scenario_case(S.gen_wrap(rng), 'id-wrap-around'))
-    out += alloc_cases(rng, 3000 if tier == 'thorough' else 400)
+    out += alloc_cases(rng, 3000 if tier == 'thorough' else 300)
     return out
 
 
